@@ -1,6 +1,8 @@
 \* quick smoke configuration: bool and u8 exhaustive pools, all model facts incl. the full-range region lemma
 CONSTANT Sel = {"x_bool", "x_u8"}
 CONSTANT NRand = 10
+CONSTANT SliceK = 1
+CONSTANT SliceR = 0
 CONSTANT FullLemma = TRUE
 SPECIFICATION Spec
 INVARIANT WellFormed
